@@ -10,8 +10,8 @@ theorem msgs_cons (r : Res) (tr : List Res) : msgs (r :: tr) = msgs [r] ++ msgs 
   cases r <;> simp [msgs]
 
 theorem run_inv : ∀ (acts : List Action) (todo : List Frame) (st : State) (w : World),
-    Inv todo st w → FramesOk todo → ∀ tr st' w', run st w acts = (tr, st', w') →
-    ∃ todo', Inv todo' st' w' ∧ FramesOk todo' ∧ todo = msgs tr ++ todo' ∧ ∀ r ∈ tr, r.good = true := by
+    Inv p todo st w → FramesOk p todo → ∀ tr st' w', run st w acts = (tr, st', w') →
+    ∃ todo', Inv p todo' st' w' ∧ FramesOk p todo' ∧ todo = msgs tr ++ todo' ∧ ∀ r ∈ tr, r.good = true := by
   intro acts
   induction acts with
   | nil =>
@@ -49,7 +49,7 @@ theorem run_inv : ∀ (acts : List Action) (todo : List Frame) (st : State) (w :
                 · exact hg1
                 · exact hg2 x hx
 
-/-- no call of any history reports `ConnectionClosed`: ANY start state, ANY stream (also malformed frames) -/
+/-- no call of any history reports `ConnectionClosed`: ANY start state, ANY stream p (also malformed frames) -/
 theorem run_ne_closed : ∀ (acts : List Action) (st : State) (w : World), Res.closed ∉ (run st w acts).1 := by
   intro acts
   induction acts with
@@ -80,25 +80,9 @@ theorem run_ne_closed : ∀ (acts : List Action) (st : State) (w : World), Res.c
 
 /-! ### conservation: every byte and descriptor of the remaining frames is in the buffer or still unread -/
 
-theorem cells_fds (f : Frame) (h : f.bytes ≠ []) : (cells f).flatMap Prod.snd = f.fds := by
-  have := cells_fds_slice f 0 (cells f).length
-  rw [List.drop_zero, List.take_length] at this
-  rw [this, if_pos]
-  refine ⟨rfl, ?_, h⟩
-  rw [cells_length]
-  cases hb : f.bytes with
-  | nil => exact absurd hb h
-  | cons _ _ => simp
-
-theorem cells_drop_fds (f : Frame) (n : Nat) (h : 0 < n) : ((cells f).drop n).flatMap Prod.snd = [] := by
-  have := cells_fds_slice f n ((cells f).drop n).length
-  rw [List.take_length] at this
-  rw [this, if_neg]
-  rintro ⟨h0, _⟩; omega
-
-theorem inv_conservation {todo : List Frame} {st : State} {w : World} (hI : Inv todo st w) :
-    (stream todo).map Prod.fst = st.buf ++ w.rest.map Prod.fst ∧
-    (stream todo).flatMap Prod.snd = st.fds ++ w.rest.flatMap Prod.snd := by
+theorem inv_conservation {todo : List Frame} {st : State} {w : World} (hI : Inv p todo st w) :
+    (stream p todo).map Prod.fst = st.buf ++ w.rest.map Prod.fst ∧
+    (stream p todo).flatMap Prod.snd = st.fds ++ w.rest.flatMap Prod.snd := by
   constructor
   · rw [stream_hd_tail, hI.rest, List.map_append, List.map_append, List.map_drop, cells_map_fst,
       ← List.append_assoc]
@@ -109,17 +93,23 @@ theorem inv_conservation {todo : List Frame} {st : State} {w : World} (hI : Inv 
   · rw [stream_hd_tail, hI.rest, List.flatMap_append, List.flatMap_append, ← List.append_assoc]
     congr 1
     rw [hI.fds]
-    by_cases hz : st.buf.length = 0
-    · rw [if_pos hz, hz]; simp
-    · rw [if_neg hz, cells_drop_fds (hd todo) st.buf.length (by omega), List.append_nil]
-      apply cells_fds
-      intro h0
-      have := hI.le
-      rw [h0, List.length_nil] at this; omega
+    have hsplit : (cells p (hd todo)).flatMap Prod.snd =
+        ((cells p (hd todo)).take st.buf.length).flatMap Prod.snd ++
+          ((cells p (hd todo)).drop st.buf.length).flatMap Prod.snd := by
+      rw [← List.flatMap_append, List.take_append_drop]
+    rw [hsplit]
+    congr 1
+    have := cells_fds_slice p (hd todo) 0 st.buf.length
+    rw [List.drop_zero] at this
+    rw [this]
+    have hle := hI.le
+    by_cases hz : st.buf.length ≤ p (hd todo)
+    · rw [if_pos hz, if_neg]; omega
+    · rw [if_neg hz, if_pos]; omega
 
 /-- nothing unread and no complete message waiting: every frame has been handed out -/
-theorem inv_rest_nil {todo : List Frame} {st : State} {w : World} (hI : Inv todo st w)
-    (hok : FramesOk todo) (hr : w.rest = []) (hw : check st ≠ .whole) : todo = [] := by
+theorem inv_rest_nil {todo : List Frame} {st : State} {w : World} (hI : Inv p todo st w)
+    (hok : FramesOk p todo) (hr : w.rest = []) (hw : check st ≠ .whole) : todo = [] := by
   cases todo with
   | nil => rfl
   | cons cur more =>
@@ -128,7 +118,7 @@ theorem inv_rest_nil {todo : List Frame} {st : State} {w : World} (hI : Inv todo
     rw [hr] at hrest
     have hcur : hd (cur :: more) = cur := rfl
     rw [hcur] at hrest
-    have h1 : (cells cur).drop st.buf.length = [] := (List.append_eq_nil_iff.mp hrest.symm).1
+    have h1 : (cells p cur).drop st.buf.length = [] := (List.append_eq_nil_iff.mp hrest.symm).1
     rw [List.drop_eq_nil_iff, cells_length] at h1
     have h2 := hI.le
     rw [hcur] at h2
@@ -145,7 +135,7 @@ def oneByte : Nat → List Action
   | n + 1 => .arrive 1 :: .call .getNext [.deliver 1] :: oneByte n
 
 theorem getNext_not_whole {todo : List Frame} {st st' : State} {w w' : World} {evs : List Ev} {r : Res}
-    (hI : Inv todo st w) (hok : FramesOk todo) (h : getNext st w evs = (r, st', w')) :
+    (hI : Inv p todo st w) (hok : FramesOk p todo) (h : getNext st w evs = (r, st', w')) :
     check st' ≠ .whole := by
   obtain ⟨todo', hI', hok', _, hg⟩ := getNext_inv hI hok h
   simp only [getNext] at h
@@ -205,7 +195,7 @@ theorem readWhole_nil_world {st st' : State} {w w' : World} {r : Res}
 
 /-- with something queued, a `recvmsg` answered with one byte takes exactly one byte -/
 theorem getNext_one {todo : List Frame} {st : State} {w : World}
-    (hI : Inv todo st w) (hok : FramesOk todo) (hw : check st ≠ .whole) (hr : w.rest ≠ []) :
+    (hI : Inv p todo st w) (hok : FramesOk p todo) (hw : check st ≠ .whole) (hr : w.rest ≠ []) :
     ∀ r st' w', getNext st (w.arrive 1) [.deliver 1] = (r, st', w') → w'.rest.length + 1 = w.rest.length := by
   intro r st' w' h
   have hc := check_of_inv hI hok
@@ -255,7 +245,7 @@ theorem getNext_one {todo : List Frame} {st : State} {w : World}
     rw [hfin, List.length_drop]; omega
 
 theorem oneByte_run : ∀ (n : Nat) (todo : List Frame) (st : State) (w : World),
-    Inv todo st w → FramesOk todo → check st ≠ .whole → w.rest.length = n →
+    Inv p todo st w → FramesOk p todo → check st ≠ .whole → w.rest.length = n →
     ∀ tr st' w', run st w (oneByte n) = (tr, st', w') → msgs tr = todo ∧ st'.buf = [] ∧ w'.rest = [] := by
   intro n
   induction n with
@@ -297,7 +287,7 @@ def totalLen : List Frame → Nat
   | [] => 0
   | f :: fs => f.bytes.length + totalLen fs
 
-theorem stream_length (fs : List Frame) : (stream fs).length = totalLen fs := by
+theorem stream_length (p : Frame → Nat) (fs : List Frame) : (stream p fs).length = totalLen fs := by
   induction fs with
   | nil => rfl
   | cons f fs ih => simp [stream, totalLen, cells_length, ih]
